@@ -1,7 +1,6 @@
 package c03
 
 import (
-	"bytes"
 	"fmt"
 	"math"
 	"sort"
@@ -343,12 +342,12 @@ func anyPrimitive(m vng.Metadata, pred func(*vng.Primitive) bool) bool {
 	return false
 }
 
-func hasPlainNet(data []byte) bool {
-	obj, err := vng.NewObject(bytes.NewReader(data))
-	if err != nil {
+func hasPlainNet(c *checked) bool {
+	m := c.meta()
+	if m == nil {
 		return false
 	}
-	return anyPrimitive(obj.Metadata(), func(p *vng.Primitive) bool {
+	return anyPrimitive(m, func(p *vng.Primitive) bool {
 		return p.Typ == zed.TypeNet && len(p.Dict) == 0 && p.Count > 0
 	})
 }
@@ -413,7 +412,7 @@ var knownClasses = []knownClass{
 		sig:     "C03/vector/net-plain-column",
 		stage:   "vector",
 		crash:   true,
-		present: func(c *checked) bool { return hasPlainNet(c.data) },
+		present: func(c *checked) bool { return hasPlainNet(c) },
 		rewrite: func(c *checked) []zed.Value {
 			// keep at most 200 distinct net values in the whole input, so every net column is const or dict
 			keep := map[string]bool{}
